@@ -28,6 +28,11 @@ func TestC33(t *testing.T) {
 		counts []int
 		pick   int // live position to re-allocate
 		opts   resourcetypes.RawParams
+		// direct placement (deterministic corpus): the node record is written with the origin on exactly
+		// these whole cores (plus [used] pieces on other cores) and the origin resource is fabricated
+		cores []string
+		used  map[string]int
+		numa  string
 	}
 
 	emit := func(kind string, spec nodeSpec, sc *script) {
@@ -39,6 +44,37 @@ func TestC33(t *testing.T) {
 			nAllocs := 1 + g.intn(4)
 			if sc != nil {
 				nAllocs = len(sc.allocs)
+			}
+			if sc != nil && sc.cores != nil {
+				nAllocs = 0
+				capacity, usage, _ := w.read(node, nil)
+				mem := int64(100)
+				cm := map[string]int{}
+				for _, c := range sc.cores {
+					usage.CPUMap[c] = base
+					cm[c] = base
+				}
+				for c, v := range sc.used {
+					usage.CPUMap[c] = v
+				}
+				total := 0
+				for _, v := range usage.CPUMap {
+					total += v
+				}
+				usage.CPU = float64(total) / float64(base)
+				usage.Memory = mem
+				raw := resourcetypes.RawParams{"cpu_request": float64(len(sc.cores)), "cpu_limit": float64(len(sc.cores)), "memory_request": mem, "memory_limit": mem,
+					"cpu_map": cm, "numa_node": sc.numa}
+				if sc.numa != "" {
+					usage.NUMAMemory[sc.numa] = mem
+					raw["numa_memory"] = map[string]int64{sc.numa: mem}
+				}
+				if _, err := w.pl.SetNodeResourceInfo(w.ctx, node, nrToRaw(capacity), nrToRaw(usage)); err != nil {
+					checkInfra(err)
+					t.Fatalf("SetNodeResourceInfo: %v", err)
+				}
+				live = append(live, &workload{id: "w1", res: roundTrip(resourcetypes.Resources{pluginName: raw})})
+				r.Count("corpus:multi_core_placed")
 			}
 			for i := 0; i < nAllocs; i++ {
 				var opts resourcetypes.RawParams
@@ -197,15 +233,33 @@ func TestC33(t *testing.T) {
 	plain := nodeSpec{cores: 4, share: 100, memory: 4000, describe: "plain"}
 	numa2 := nodeSpec{cores: 4, share: 100, memory: 4000, numa: [][]string{{"0", "2"}, {"1", "3"}}, numaMem: []int64{2000, 2000}, describe: "numa2"}
 	// corpus: the theorem's case; the two refutation witnesses
-	emit("corpus", plain, &script{[]resourcetypes.RawParams{bind(1, 100), bind(2, 100)}, []int{1, 1}, 1, keep(50)})
-	emit("corpus", plain, &script{[]resourcetypes.RawParams{bind(2, 0)}, []int{2}, 1, keep(0)})
-	emit("corpus", numa2, &script{[]resourcetypes.RawParams{bind(1, 100)}, []int{1}, 0, keep(0)})                   // NUMA: another node can host it
-	emit("corpus", numa2, &script{[]resourcetypes.RawParams{bind(1, 100), bind(1, 100)}, []int{1, 1}, 1, keep(50)}) // NUMA, both nodes in use
+	emit("corpus", plain, &script{[]resourcetypes.RawParams{bind(1, 100), bind(2, 100)}, []int{1, 1}, 1, keep(50), nil, nil, ""})
+	emit("corpus", plain, &script{[]resourcetypes.RawParams{bind(2, 0)}, []int{2}, 1, keep(0), nil, nil, ""})
+	emit("corpus", numa2, &script{[]resourcetypes.RawParams{bind(1, 100)}, []int{1}, 0, keep(0), nil, nil, ""})                   // NUMA: another node can host it
+	emit("corpus", numa2, &script{[]resourcetypes.RawParams{bind(1, 100), bind(1, 100)}, []int{1, 1}, 1, keep(50), nil, nil, ""}) // NUMA, both nodes in use
 	// NUMA boundary: the workload grows to exactly the free memory of its NUMA node; the other node's cores are taken
-	emit("corpus", numa2, &script{[]resourcetypes.RawParams{bind(1, 100), bind(1, 100), bind(1, 100), bind(1, 100)}, []int{1, 1, 1, 1}, 0, keep(1800)})
-	emit("corpus", numa2, &script{[]resourcetypes.RawParams{bind(2, 2000), bind(2, 100)}, []int{1, 1}, 0, keep(0)})
-	emit("corpus", plain, &script{[]resourcetypes.RawParams{bind(1.5, 0)}, []int{1}, 0, keep(0)})                  // fractional
-	emit("corpus", plain, &script{[]resourcetypes.RawParams{bind(0.5, 0), bind(1.5, 0)}, []int{1, 1}, 1, keep(0)}) // fractional, shared core
+	emit("corpus", numa2, &script{[]resourcetypes.RawParams{bind(1, 100), bind(1, 100), bind(1, 100), bind(1, 100)}, []int{1, 1, 1, 1}, 0, keep(1800), nil, nil, ""})
+	emit("corpus", numa2, &script{[]resourcetypes.RawParams{bind(2, 2000), bind(2, 100)}, []int{1, 1}, 0, keep(0), nil, nil, ""})
+	emit("corpus", plain, &script{[]resourcetypes.RawParams{bind(1.5, 0)}, []int{1}, 0, keep(0), nil, nil, ""})                  // fractional
+	emit("corpus", plain, &script{[]resourcetypes.RawParams{bind(0.5, 0), bind(1.5, 0)}, []int{1, 1}, 1, keep(0), nil, nil, ""}) // fractional, shared core
+
+	// deterministic placements of multi-core whole-core workloads whose cores are NOT one of the planner's
+	// default groups (seeded/C33-affinity-only-with-fragment): keep-bind, no cpu change, must stay put
+	plain8 := nodeSpec{cores: 8, share: 100, memory: 8000, describe: "plain"}
+	numa8 := nodeSpec{cores: 8, share: 100, memory: 8000, numa: [][]string{{"0", "2", "4", "6"}, {"1", "3", "5", "7"}}, numaMem: []int64{4000, 4000}, describe: "numa2"}
+	direct := func(cores []string, used map[string]int, numa string, mem int64) *script {
+		return &script{cores: cores, used: used, numa: numa, pick: 0, opts: keep(mem)}
+	}
+	emit("corpus", plain8, direct([]string{"1", "2"}, nil, "", 0))
+	emit("corpus", plain8, direct([]string{"0", "2"}, nil, "", 50))
+	emit("corpus", plain8, direct([]string{"1", "3"}, map[string]int{"0": 100}, "", 0))
+	emit("corpus", plain8, direct([]string{"2", "5", "6"}, nil, "", 0))
+	emit("corpus", plain8, direct([]string{"2", "5", "6"}, map[string]int{"0": 50, "7": 100}, "", -50))
+	emit("corpus", plain8, direct([]string{"6", "7"}, map[string]int{"0": 100, "1": 30}, "", 0))
+	// the same on a NUMA node: the origin's node ("0": cores 0,2,4,6) has spare cores
+	emit("corpus", numa8, direct([]string{"2", "4"}, nil, "0", 0))
+	emit("corpus", numa8, direct([]string{"4", "6"}, map[string]int{"1": 100, "3": 100, "5": 100, "7": 100}, "0", 50))
+	emit("corpus", numa8, direct([]string{"3", "7"}, map[string]int{"0": 100}, "1", 0))
 
 	n := r.N(150, 1500)
 	for i := 0; i < n; i++ {
